@@ -34,6 +34,13 @@ def run(rep, tier):
     failed = l1.record(rep, res, "C17")
     for r in results[1:]:
         l1.record(rep, r, "C17")
+    timed_out = bool(getattr(res, "error", None)) and not res.props
+    if timed_out:
+        # the unbounded proof attempt did not finish (e.g. floating-point index arithmetic in the body): look for a REAL counterexample with the bounded
+        # variant; a refutation found there is a violation (replayed natively), no refutation leaves the property undecided (exit 2)
+        class _P:            # stands for the obligation of the bounded variant
+            name, desc, loc, trace = "bounded_refutation", "Get_i: xi inside the grid is bracketed by the returned interval (bounded variant, nx<=6)", "contracts/C17_get_i.c h_bounded", None
+        failed = [_P]
     if failed:
         # inductive counterexamples may be unreachable: obtain a reachable witness with the bounded variant
         nxb = 6
@@ -45,6 +52,11 @@ def run(rep, tier):
             if p.status == "FAILURE" and "bounded" in p.desc and p.trace:
                 wit = l1.trace_inputs(p.trace)
                 break
+        if timed_out and not wit:
+            failed = []          # nothing refuted: stays undecided through the recorded time-out
+        elif timed_out:
+            rep.add("C17.Get_i.bounded_refutation", "SQuIDS::Get_i", "L1", "cbmc-sat-unwind%d" % (nxb + 2), "failed", bres.seconds if hasattr(bres, "seconds") else 0.0,
+                    "src/SQuIDS.cpp Get_i", "bounded variant refuted the bracketing postcondition", bounded="nx<=%d" % nxb)
         for p in failed:
             oid = "C17.Get_i." + p.name
             data = dict(obligation=p.name, description=p.desc, location=p.loc, verifier="cbmc/dfcc",
